@@ -12,31 +12,33 @@ namespace PlasVerif.Properties.C04
 open PlasVerif.Model.Context PlasVerif.Model.Catcodes PlasVerif.Spec.Balanced PlasVerif.Proofs.Context
 
 /-- **Closing a group restores everything local.**  For every balanced body, every stack and
-    every (non-document) object: after `push o; body; pop o` the stack is the one before the
-    group, except for definitions `g` added to the global frame, and each of those has a
-    global-source operation (a global definition, or a lookup miss) in the body. -/
+    every (non-document) object: after `push o; body; pop o'` the stack is the one before the
+    group, except for (a) definitions `g` added to the global frame, each of which has a
+    global-source operation (a global definition, or a lookup miss) in the body, and (b) the
+    local bindings of the names `ns` that the body defined with `\gdef`, which are gone at every
+    level (a global definition replaces the meaning at every group level). -/
 theorem group_restores (o o' : Option ObjRef) (locals : List (Nat × Val)) (body : List Op)
     (hb : Balanced body) (ho : notDoc o = true) (hcl : closes o o' = true) (c : Ctx) (hc : c ≠ []) :
-    ∃ g, run (Op.push o locals :: (body ++ [Op.pop o'])) c = extG g c ∧
-      ∀ x ∈ g, ∃ op ∈ body, globalSource x.1 op = true := by
+    ∃ g ns, run (Op.push o locals :: (body ++ [Op.pop o'])) c = shape g ns c ∧
+      (∀ x ∈ g, ∃ op ∈ body, globalSource x.1 op = true) ∧ (∀ n ∈ ns, ∃ op ∈ body, isGdef n op = true) := by
   cases c with
   | nil => exact absurd rfl hc
   | cons f t =>
-    obtain ⟨fb, gb, h1, e1, s1⟩ :=
+    obtain ⟨fb, gb, nb, h1, e1, s1, d1⟩ :=
       balanced_frame hb { macros := locals, lets := [], cats := cats (f :: t), obj := o } (f :: t)
-    refine ⟨gb, ?_, s1⟩
+    refine ⟨gb, nb, ?_, s1, d1⟩
     rw [run_cons, run_append]
     simp only [step, run_cons, run]
     rw [push_notDoc o locals (f :: t) ho]
     have : List.foldl step ({ macros := locals, lets := [], cats := cats (f :: t), obj := o } :: f :: t) body =
-        fb :: extG gb (f :: t) := h1
+        fb :: shape gb nb (f :: t) := h1
     rw [this]
     simp only [List.foldl]
-    exact pop_own_frame o o' fb _ e1 hcl (extG_ne_nil gb (f :: t) (by simp))
+    exact pop_own_frame o o' fb _ e1 hcl (shape_ne_nil gb nb (f :: t) (by simp))
 
 /-- non-vacuity: `{ \def\a{..} \catcode`\@=11 \let\b=x  \undefined }` inside an environment frame -/
-example : Balanced [Op.push none [], .addLocal 1 (.defn 5), .setCat 64 11, .letTok 2 120, .lookup 3, .pop none] :=
-  .group none none [] _ [] rfl rfl (.op _ _ rfl (.op _ _ rfl (.op _ _ rfl (.op _ _ rfl .nil)))) .nil
+example : Balanced [Op.push none [], .addLocal 1 (.defn 5), .setCat 64 11, .letTok 2 120, .lookup 3, .gdef 4 (.defn 9), .pop none] :=
+  .group none none [] _ [] rfl rfl (.op _ _ rfl (.op _ _ rfl (.op _ _ rfl (.op _ _ rfl (.op _ _ rfl .nil))))) .nil
 
 /-- non-vacuity for object frames: `\\begin{foo}` (object 1) is closed by its `\\end{foo}` instance (object 3: same class,
     end mode), and a `\\bar` frame by a macro named `\\endbar` -/
@@ -50,22 +52,22 @@ theorem depth_balanced (ops : List Op) (hb : Balanced ops) (c : Ctx) (hc : c ≠
   cases c with
   | nil => exact absurd rfl hc
   | cons f t =>
-    obtain ⟨f', g, h, _, _⟩ := balanced_frame hb f t
-    rw [h]; simp [extG_length]
+    obtain ⟨f', g, ns, h, _, _, _⟩ := balanced_frame hb f t
+    rw [h]; simp [shape_length]
 
 /-- **Category codes are local**: after the group every character has the category it had before. -/
 theorem catcode_local (o o' : Option ObjRef) (locals : List (Nat × Val)) (body : List Op)
     (hb : Balanced body) (ho : notDoc o = true) (hcl : closes o o' = true) (c : Ctx) (hc : c ≠ []) (ch : Nat) :
     whichCodeCtx (run (Op.push o locals :: (body ++ [Op.pop o'])) c) ch = whichCodeCtx c ch := by
-  obtain ⟨g, h, _⟩ := group_restores o o' locals body hb ho hcl c hc
-  rw [h, whichCodeCtx, cats_extG]; rfl
+  obtain ⟨g, ns, h, _, _⟩ := group_restores o o' locals body hb ho hcl c hc
+  rw [h, whichCodeCtx, cats_shape]; rfl
 
 /-- **`\let` aliases of tokens are local.** -/
 theorem let_local (o o' : Option ObjRef) (locals : List (Nat × Val)) (body : List Op)
     (hb : Balanced body) (ho : notDoc o = true) (hcl : closes o o' = true) (c : Ctx) (hc : c ≠ []) (n : Nat) :
     getLet n (run (Op.push o locals :: (body ++ [Op.pop o'])) c) = getLet n c := by
-  obtain ⟨g, h, _⟩ := group_restores o o' locals body hb ho hcl c hc
-  rw [h, getLet_extG]
+  obtain ⟨g, ns, h, _, _⟩ := group_restores o o' locals body hb ho hcl c hc
+  rw [h, getLet_shape]
 
 /-- **Definitions are local**: a name that the body neither defines globally nor looks up while
     undefined means after the group exactly what it meant before — whatever local definitions,
@@ -74,13 +76,19 @@ theorem def_local (o o' : Option ObjRef) (locals : List (Nat × Val)) (body : Li
     (hb : Balanced body) (ho : notDoc o = true) (hcl : closes o o' = true) (c : Ctx) (hc : c ≠ []) (n : Nat)
     (hn : ∀ op ∈ body, globalSource n op = false) :
     find n (run (Op.push o locals :: (body ++ [Op.pop o'])) c) = find n c := by
-  obtain ⟨g, h, hs⟩ := group_restores o o' locals body hb ho hcl c hc
+  obtain ⟨g, ns, h, hs, hd⟩ := group_restores o o' locals body hb ho hcl c hc
   rw [h]
-  apply find_extG
-  intro x hx hxn
-  obtain ⟨op, hop, hsrc⟩ := hs x hx
-  rw [hxn, hn op hop] at hsrc
-  exact Bool.false_ne_true hsrc
+  apply find_shape
+  · intro x hx hxn
+    obtain ⟨op, hop, hsrc⟩ := hs x hx
+    rw [hxn, hn op hop] at hsrc
+    exact Bool.false_ne_true hsrc
+  · intro hmem
+    obtain ⟨op, hop, hg⟩ := hd n hmem
+    have : globalSource n op = true := by
+      cases op <;> simp_all [isGdef, globalSource]
+    rw [hn op hop] at this
+    exact Bool.false_ne_true this
 
 /-- **Global definitions survive**: once `n` is defined globally, no later history that does not
     itself write `n` — in particular no closing of groups, however many — changes its global meaning. -/
@@ -94,6 +102,18 @@ theorem gdef_survives (n : Nat) (v : Val) (ops : List Op) (c : Ctx) (hc : c ≠ 
 
 example : findGlobal 1 (run [Op.push none [], .addGlobal 1 (.defn 7), .addLocal 2 (.defn 8), .pop none] init) = some (.defn 7) := by
   decide
+
+/-- **A `\\gdef` replaces the meaning at every group level**: right after `\\gdef\\n`, at any depth and
+    whatever local definitions of `n` the enclosing groups had made, `n` means the new definition — and
+    (by `gdef_survives`) it still does after all those groups have closed. -/
+theorem gdef_replaces_every_level (n : Nat) (v : Val) (c : Ctx) (hc : c ≠ []) :
+    find n (step c (.gdef n v)) = some v ∧ findGlobal n (step c (.gdef n v)) = some v := by
+  refine ⟨find_defGlobal n v c hc, ?_⟩
+  simp only [step, defGlobal]
+  exact findGlobal_addGlobal_same n v _ (dropLocalsL_ne_nil [n] c hc)
+
+example : find 1 (run [Op.push none [], .addLocal 1 (.defn 5), .push none [], .gdef 1 (.defn 7), .pop none] init)
+    = some (.defn 7) := by decide
 
 /-- **Lookup yields the innermost live definition**: a binding in the top frame wins over
     anything below; otherwise the search continues in the enclosing frames. -/
@@ -116,11 +136,11 @@ theorem pop_obj_exact (o o' : Option ObjRef) (locals : List (Nat × Val)) (body 
   cases c with
   | nil => exact absurd rfl hc
   | cons f t =>
-    obtain ⟨fb, gb, h1, e1, _⟩ :=
+    obtain ⟨fb, gb, nb, h1, e1, _, _⟩ :=
       balanced_frame hb { macros := locals, lets := [], cats := cats (f :: t), obj := o } (f :: t)
     refine ⟨fb, ?_, e1⟩
     rw [run_cons]
     simp only [step]
-    rw [push_notDoc o locals (f :: t) ho, h1, pop_own_frame o o' fb _ e1 hcl (extG_ne_nil gb (f :: t) (by simp))]
+    rw [push_notDoc o locals (f :: t) ho, h1, pop_own_frame o o' fb _ e1 hcl (shape_ne_nil gb nb (f :: t) (by simp))]
 
 end PlasVerif.Properties.C04
